@@ -977,7 +977,8 @@ char* string_print_formatted (char *format_str, int argc, svalue_t * argv) {
                         }
                       pres = format_str[fpos] - '0';
                       for (fpos++; isdigit (format_str[fpos]); fpos++)
-                        pres = pres * 10 + format_str[fpos] - '0';
+                        if (pres < 100000000)	/* saturates: no result is that long */
+                          pres = pres * 10 + format_str[fpos] - '0';
                       if (pres < 0)
                         pres = 0;
                     }
@@ -1010,7 +1011,8 @@ char* string_print_formatted (char *format_str, int argc, svalue_t * argv) {
                           fs = format_str[fpos] - '0';
                         }
                       for (fpos++; isdigit (format_str[fpos]); fpos++)
-                        fs = fs * 10 + format_str[fpos] - '0';
+                        if (fs < 100000000)	/* saturates: no result is that long */
+                          fs = fs * 10 + format_str[fpos] - '0';
                       if (fs < 0)
                         fs = 0;
                       if (pres == -2)
